@@ -54,5 +54,8 @@ class FxAgent(Agent, IDecodable):
 
 
 def hook(params):
+    if params.get("swap_env") and CURRENT[0] is not None:
+        from ECAgent.Core import Environment
+        CURRENT[0].set_environment(Environment(CURRENT[0]))      # a hook may give the (still empty) model a new environment
     needs = params["kind"] not in ("pre_model", "post_model")
     _emit(params["kind"], params.get("i", 0), 0, needs and params.get("model") is CURRENT[0] and CURRENT[0] is not None)
